@@ -300,3 +300,47 @@ def sandwich_family():
             if t not in seen:
                 seen.add(t)
                 yield b
+
+
+def live_loads_family():
+    """Two (or three) loaded values that feed a later store and are still live afterwards (left on the stack)."""
+    loads = [("MLOAD", X), ("MLOAD", Y), ("SLOAD", X), ("SLOAD", Y), ("KECCAK256", X, C(32)), ("MLOAD", C(0)),
+             ("SLOAD", C(1))]
+    stores = ["MSTORE", "SSTORE", "MSTORE8"]
+    seen = set()
+    for l1, l2 in itertools.permutations(loads, 2):
+        for st in stores:
+            for shape in (0, 1, 2):
+                if shape == 0:      # store(addr = l1, value = l2), both stay
+                    exprs = [l1, l2, (st, l1, l2)]
+                elif shape == 1:    # store(addr = z, value = l1 + l2), both stay
+                    exprs = [l1, l2, (st, Z, ("ADD", l1, l2))]
+                else:               # two stores, each fed by one load
+                    exprs = [l1, l2, (st, l1, Z), (st, Z, l2)]
+                b = compile_copy(exprs, 3)
+                if b is None:
+                    continue
+                t = tuple(b)
+                if t not in seen:
+                    seen.add(t)
+                    yield b
+
+
+def split_rule_family():
+    """A rule-firing prefix, a splitting instruction (or a store, which splits under -storage / -partition) and a
+    short suffix: bookkeeping that must be reset between the sub-blocks of one block."""
+    prefixes = [[P(0), I("ADD")], [I("DUP1"), I("SUB")], [P(1), I("MUL")], [I("ISZERO"), I("ISZERO"), I("ISZERO")],
+                [P(0), I("DUP2"), I("ADD")], [P(3), P(4), I("ADD")], [I("DUP1"), I("XOR")], [I("NOT"), I("NOT")], []]
+    splits = [[I("GAS")], [P(5), I("SSTORE")], [P(0), I("MSTORE")], [I("DUP1"), I("DUP1"), I("LOG0")],
+              [I("SSTORE")], [I("DUP2"), I("MSTORE")]]
+    suffixes = [[I("CALLER"), I("ADDRESS")], [I("CALLER"), I("ADDRESS"), I("SSTORE")], [P(1), P(2)], [I("DUP1"), I("ADD")],
+                [P(1), I("ADD")], [I("CALLER")], [I("POP")], [I("DUP1")], [P(0), I("ADD")], [I("SWAP1")],
+                [I("CALLER"), I("DUP1"), I("EQ")], [P(7), I("DUP2"), I("MSTORE")]]
+    seen = set()
+    for a, b, c in itertools.product(prefixes, splits, suffixes):
+        for rep in (1, 2):
+            blk = a + (b + c) * rep
+            t = tuple(blk)
+            if t not in seen:
+                seen.add(t)
+                yield blk
